@@ -897,10 +897,71 @@ func (g *Gen) listTarget(level int) *ast.ExprList {
 	return n
 }
 
-// ConstExpr draws a constant expression (defaults, const, property initialisers, static).
+// ConstExpr draws a constant expression (defaults, const, property
+// initialisers, static): scalars, constants, class constants, arrays and —
+// since PHP 5.6 — every operator on them incl. both ternary forms. PHP 5 has
+// a separate grammar (static_operation) for these, so they are generated with
+// the same precedence-driven bracketing as ordinary expressions.
 func (g *Gen) ConstExpr() ast.Vertex {
 	g.depth++
 	defer func() { g.depth-- }()
+	if g.depth <= g.O.MaxDepth+1 {
+		switch g.intn(10, "constop") {
+		case 0, 1:
+			for {
+				op := binOps[g.intn(len(binOps), "binop")]
+				if op.php7 && (!g.O.PHP7 || g.O.Common) {
+					continue
+				}
+				l, r := g.ConstExpr(), g.ConstExpr()
+				lex := op.lex
+				if op.word {
+					lex = g.spell(lex)
+				}
+				g.feat("constexpr-binary")
+				lo := g.operand(l, op.prec, op.assoc, left)
+				if !g.O.PHP7 || g.O.Common {
+					// PHP 5's constant-expression grammar gives unary + and - the precedence of
+					// the binary operators (no %prec), so "+a * b" is "+(a * b)" there: keep
+					// such operands in brackets, the grouping is not shared with PHP 7
+					switch lo.(type) {
+					case *ast.ExprUnaryPlus, *ast.ExprUnaryMinus:
+						if op.prec > pAdditive {
+							g.Excl["php5-constexpr-unary-sign"]++
+							lo = g.Brackets(lo)
+						}
+					}
+				}
+				return op.mk(lo, g.tok(op.id, lex), g.operand(r, op.prec, op.assoc, right))
+			}
+		case 2:
+			c, f := g.ConstExpr(), g.ConstExpr()
+			n := &ast.ExprTernary{QuestionTkn: g.ch('?'), ColonTkn: g.ch(':')}
+			n.Cond = g.operand(c, pTernary, aLeft, left)
+			if g.flip("longternary") {
+				n.IfTrue = g.ConstExpr()
+			}
+			n.IfFalse = g.operand(f, pTernary, aLeft, right)
+			g.feat("constexpr-ternary")
+			return n
+		case 3:
+			e := g.ConstExpr()
+			g.feat("constexpr-unary")
+			switch g.intn(4, "constunary") {
+			case 0:
+				return &ast.ExprBooleanNot{ExclamationTkn: g.ch('!'), Expr: g.prefixOperand(e, pNot)}
+			case 1:
+				return &ast.ExprBitwiseNot{TildaTkn: g.ch('~'), Expr: g.prefixOperand(e, pUnary)}
+			case 2:
+				return &ast.ExprUnaryPlus{PlusTkn: g.ch('+'), Expr: g.prefixOperand(e, pUnary)}
+			default:
+				return &ast.ExprUnaryMinus{MinusTkn: g.ch('-'), Expr: g.prefixOperand(e, pUnary)}
+			}
+		case 4:
+			g.feat("constexpr-brackets")
+			return g.Brackets(g.ConstExpr())
+		}
+	}
 	switch g.intn(9, "constexpr") {
 	case 0:
 		return g.SingleQuoted()
@@ -912,19 +973,29 @@ func (g *Gen) ConstExpr() ast.Vertex {
 		return &ast.ExprClassConstFetch{Class: g.Name(), DoubleColonTkn: g.tok(token.T_PAAMAYIM_NEKUDOTAYIM, "::"), Const: g.Ident(g.plainName())}
 	case 4:
 		n := &ast.ExprArray{OpenBracketTkn: g.ch('['), CloseBracketTkn: g.ch(']')}
-		if g.depth <= g.O.MaxDepth && g.flip("constarrayitem") {
-			n.Items = []ast.Vertex{&ast.ExprArrayItem{Key: g.SingleQuoted(), DoubleArrowTkn: g.tok(token.T_DOUBLE_ARROW, "=>"), Val: g.Number()}}
+		if g.flip("longconstarray") {
+			n.ArrayTkn = g.kw(token.T_ARRAY, "array")
+			n.OpenBracketTkn, n.CloseBracketTkn = g.ch('('), g.ch(')')
+		}
+		if g.depth <= g.O.MaxDepth {
+			k := g.rng(0, 2, "constitems")
+			for i := 0; i < k; i++ {
+				it := &ast.ExprArrayItem{Val: g.ConstExpr()}
+				if g.flip("constkey") {
+					it.Key, it.DoubleArrowTkn = g.SingleQuoted(), g.tok(token.T_DOUBLE_ARROW, "=>")
+				}
+				n.Items = append(n.Items, it)
+				if i < k-1 {
+					n.SeparatorTkns = append(n.SeparatorTkns, g.ch(','))
+				}
+			}
 		}
 		return n
 	case 5:
-		return &ast.ExprUnaryMinus{MinusTkn: g.ch('-'), Expr: g.Number()}
-	case 6:
-		if g.depth <= g.O.MaxDepth {
-			return &ast.ExprBinaryPlus{Left: g.Number(), OpTkn: g.ch('+'), Right: g.Number()}
-		}
-		return g.Number()
-	case 7:
 		return g.MagicConst()
+	case 6:
+		s := g.pick("constdq", "\"plain\"", "\"a\\n\"", "\"\"")
+		return &ast.ScalarString{StringTkn: g.tok(token.T_CONSTANT_ENCAPSED_STRING, s), Value: []byte(s)}
 	default:
 		return g.Number()
 	}
